@@ -193,16 +193,42 @@ def unescape_table(prog):
         if n.kind == "const":
             other.append(n.a.as_char())
         else:
-            other.append("<letter>" if _is_local(f, tt["args"][1], scrut["l"]) else n.show())
-    # the introducer test in front of the switch
+            other.append("<letter>" if _is_place(f, tt["args"][1], scrut) else n.show())
+    # the introducer test in front of the switch: `ch == INTRO` (switch on its true edge) or `ch != INTRO` (on its false edge)
     intro = None
     for bi, b in enumerate(f.blocks):
         for st in b["stmts"]:
-            if st["k"] == "assign" and st["rv"]["k"] == "bin" and st["rv"]["op"] == "Eq":
+            if st["k"] == "assign" and st["rv"]["k"] == "bin" and st["rv"]["op"] in ("Eq", "Ne") and not st["lhs"]["p"]:
                 c = _const_int(st["rv"]["b"])
-                if c is not None and f.dominates(bi, sb):
-                    intro = chr(c)
+                if c is None or not f.dominates(bi, sb):
+                    continue
+                # the bool switch consuming this comparison
+                for b2, blk2 in enumerate(f.blocks):
+                    t2 = blk2["term"]
+                    if t2["k"] != "switch" or t2["ty"] != "bool":
+                        continue
+                    d2 = t2["discr"].get("move") or t2["discr"].get("copy")
+                    if d2 is None or d2["p"] or d2["l"] != st["lhs"]["l"]:
+                        continue
+                    tr = fl = None
+                    for v, tg in t2["targets"]:
+                        if int(v) == 0:
+                            fl = tg
+                    tr = t2["otherwise"] if fl is not None else None
+                    if tr is None:
+                        continue
+                    edge = tr if st["rv"]["op"] == "Eq" else fl
+                    if sb in f.reachable(edge, removed_edges=back) and sb not in f.reachable(0, removed_edges=list(back) + [(b2, edge)]):
+                        intro = chr(c)
     return f, table, other, intro
+
+
+def _is_place(f, op, place):
+    pl = op.get("copy") or op.get("move")
+    if pl is None:
+        return False
+    a, b = f.canon_place(pl), f.canon_place(place)
+    return a == b
 
 
 def _is_local(f, op, local):
@@ -347,7 +373,7 @@ def check_decoder_tables(ctx):
                       "encoder emits %s for byte 0x%02x but the decoders read it as %r" % (e[1], b, got))
 
 
-def follow_all(body, value, is_scrut, call_oracle=None, start=0, limit=400):
+def follow_all(body, value, is_scrut, call_oracle=None, start=0, limit=400, stop=()):
     """all paths from `start` with the scrutinee fixed to `value`; undecidable switches fork.
     call_oracle(term) may return an int for a call's destination (e.g. `is_other('\\\\')` = 0).
     Returns [{'path': [...], 'forks': [(bb, target)], 'end': why}]"""
@@ -365,6 +391,9 @@ def follow_all(body, value, is_scrut, call_oracle=None, start=0, limit=400):
                 raise RuntimeError("follow_all: limit")
             if b in path and path.count(b) > 2:
                 results.append({"path": path, "forks": forks, "end": "loop"})
+                break
+            if b in stop and path:
+                results.append({"path": path, "forks": forks, "end": "stop"})
                 break
             path.append(b)
             blk = body.blocks[b]
